@@ -224,3 +224,35 @@ PROPS = {
         ],
     },
 }
+
+# ---- scenario sweeps of the replay crate that run with every check, as BOUNDED stand-ins (listed under bounded_checks, never counted
+# as proved): each executes the real crates over the finite quantifier of its own property (option combinations, store contents,
+# status codes) with an oracle written from the statement.  They reach what no unit holds: the use the ceremonies make of their
+# dependencies (sha2, hmac, p256, coset, ciborium, rand), derive-generated code, and code a unit only has a trusted signature of.
+# Each sweep is property-specific (tools/sweep_matrix.sh: under the seeded changes a sweep fails only where its property is broken).
+_SWEEPS = {
+    "C02": [("ceremony", "c02-alg", "259 preference lists (supported / unsupported / unknown-typed entries in every position, empty list) through make_credential", "the algorithm is the first supported entry, no supported entry fails without creating anything")],
+    "C04": [("ceremony", "c04", "2 operations x up x uv x 3 verification capabilities x 8 user-validation reports x credential present / absent", "consent truth table, UP / UV bits as reported, errors leave the store untouched, the shown credential signs")],
+    "C05": [("ceremony", "c05", "allow / exclude lists absent, empty, naming held / foreign / unknown credentials, over a reference store", "only credentials bound to the RP and named in the list; exclusion exactly on a hit"),
+            ("lock-wrappers", "find", "the four lock wrappers around a scripted store, lookups with and without ids, four store answers", "a wrapped store's lookup is the store's lookup")],
+    "C06": [("passkey-debug", "-", "stored passkeys with and without PRF secrets, two COSE parameter orders, {:?} and {:#?}", "the debug rendering of a stored passkey holds neither the private scalar nor the PRF secrets in any of the five spellings")],
+    "C07": [("ceremony", "c07", "save / update failing with several status codes, 3 store capabilities, rk on / off", "a store error is reported, never success; the store is unchanged; no assertion with a counter the store did not accept"),
+            ("lock-wrappers", "save", "the four lock wrappers, save answering ok / two errors", "a wrapped store's save is the store's save (result and effect)"),
+            ("lock-wrappers", "update", "the four lock wrappers, update / lookup answering ok / errors, credential removed meanwhile", "a wrapped store's update is the store's update (result and effect)")],
+    "C08": [("ceremony", "c08", "counters 0, 1, 2^31, 2^32-2, 2^32-1 and none, two assertions each, verified / presence-only / silent", "reported = stored = previous + 1, no wrap at the maximum, counterless credentials report zero and are not rewritten")],
+    "C09": [("ceremony", "c09", "108 scenarios: 4 secret configurations x verified or not x default / per-credential inputs x one or two salts", "every PRF result is the HMAC-SHA-256 (computed independently) under the secret the statement names"),
+            ("ceremony", "c09-enabled", "80 registrations: authenticator configurations x extension request shapes (those asking for prf)", "'enabled' is reported exactly when secrets were stored"),
+            ("client-prf", "-", "48 PRF requests through the client: hashed / pre-hashed, lengths around 32, per-credential inputs with and without allow list", "salts as specified; malformed requests rejected before the authenticator is invoked")],
+    "C11": [("ceremony", "c11", "3 store capabilities x rk x requested / performed verification", "the user handle is stored exactly when the credential is discoverable; an assertion returns it exactly when stored"),
+            ("lock-wrappers", "info", "the four lock wrappers x 3 capabilities", "a wrapped store reports the store's capability")],
+    "C16": [("hid-interleave", "-", "all 126 interleavings of the packets of two messages on two channels (each channel's order kept)", "both messages are delivered intact")],
+    "C17": [("ceremony", "c17", "96 scenarios: key handles of 0 / 1 / 16 / 255 bytes x 4 counters x 6 presence bytes, applications base64 and base64url spell differently", "registration and authentication signatures verify (p256, independently) over the specified byte strings; an unknown key handle fails")],
+    "C18": [("c18-trait", "get_info", "162 authenticator configurations", "trait call = direct call"),
+            ("c18-trait", "make_credential", "request / store / user-validation variations", "trait call = direct call, same store effect"),
+            ("c18-trait", "get_assertion", "request / store / user-validation variations (a call that does not return is a failure)", "trait call = direct call, same store effect")],
+}
+for _pid, _l in _SWEEPS.items():
+    PROPS[_pid].setdefault("enumerations", [])
+    for (_e, _a, _b, _t) in _l:
+        PROPS[_pid]["enumerations"].append({"name": "%s-%s" % (_e, _a) if _a != "-" else _e, "entry": _e, "arg": _a,
+                                            "bound": _b + "; BOUNDED: executed scenarios, not a proof", "text": _t})
